@@ -141,8 +141,12 @@ def explore(chk: Check, tier: str, want: str):
                     cases.append(reftest.test_case(cid, contract, meta.sig, calldata_of(meta, tup)))
                     index[cid] = (ri, meta.sig, tup, ("model", mi, mdl.is_valid))
                     cid += 1
-        recs, tr = e1.run_spec(cases, work)
-        chk.add_tlc(tr)
+        # (in batches: one TLC run per 5000 reference executions keeps every run far below its time limit on a loaded machine)
+        recs = {}
+        for b in range(0, len(cases), 5000):
+            part, tr = e1.run_spec(cases[b : b + 5000], work, timeout=5400)
+            recs.update(part)
+            chk.add_tlc(tr)
         # aggregate
         failing = {}  # (ri, sig) -> first failing tuple
         ntuples = {}
